@@ -4,6 +4,7 @@ import (
 	"encoding/json"
 	"fmt"
 	"reflect"
+	"regexp"
 	"strings"
 
 	"verif.test/mc/explore"
@@ -262,7 +263,7 @@ docs:
 			res.Counts["documents"]++
 			if ierr := env.Inhabits(name, doc); ierr != nil {
 				msg := ierr.Error()
-				res.fail("inhabits", trunc(normPath(msg), 90), fmt.Sprintf("%s: document %s does not inhabit %s: %s [%s]", t, trunc(string(data), 400), name, msg, desc), cost)
+				res.fail("inhabits", trunc(normMsg(msg), 110), fmt.Sprintf("%s: document %s does not inhabit %s: %s [%s]", t, trunc(string(data), 400), name, msg, desc), cost)
 			}
 		})
 		res.Counts["value-transitions"] += st.Transitions
@@ -276,6 +277,16 @@ func evidHash(s string) string {
 		h *= 1099511628211
 	}
 	return fmt.Sprintf("%016x", h)
+}
+
+var reQuoted = regexp.MustCompile(`"[^"]*"`)
+
+// normMsg drops indices, keys and literal values from a mismatch message.
+func normMsg(msg string) string {
+	if i := strings.Index(msg, "; closest alternative"); i >= 0 {
+		msg = msg[:i]
+	}
+	return reQuoted.ReplaceAllString(normPath(msg), `"..."`)
 }
 
 // normPath drops array indices and map keys from a mismatch message so that similar failures group.
